@@ -234,6 +234,13 @@ def _mirsym():
             ["mem_store::column::decode"], bounds="2 rows (quick) / 0,1,3 rows + two 9-row nullable shapes (thorough); encoded values, offset and null-map bytes symbolic; Codec::ops stubbed to return the shape's op list; dyn Data modelled as tagged sequences",
             spec=sd.DecodeIntSpec(), stubs=["Codec::ops -> the codec table of IntegerColumn::create_col for the shape", "dyn Data -> tagged sequences (Vec<T> / NullableVec<T>)"])
 
+    from .specs import intcol as si
+    add("C01.c/intcol_encode", "C01", "mirsym", Q,
+        "integer column builder: IntColBuffer::push x n -> finalize -> IntegerColumn::new_boxed -> create_col -> encode chooses width/offset/delta so that the emitted codec program decodes the stored section back to every pushed value (and NULL row); no overflow panic in max-min, the delta loop or encode's unreachable!",
+        ["mem_store::column_buffer::IntColBuffer::{default,push,finalize}", "mem_store::integers::IntegerColumn::{new_boxed,create_col,encode}"],
+        bounds="1-3 values (quick) / 0-4 (thorough), all i64 except the NULL marker, optional symbolic null map; Column::new stubbed as a recorder, lz4/pco skipped; codec ops interpreted by the reference semantics shared with C01.d",
+        spec=si.IntColEncodeSpec(), stubs=["Column::new -> records (len, range, codec, data sections)", "Column::lz4_or_pco_encode -> no-op (pco / lz4_flex assumed lossless)"])
+
 
 _mirsym()
 
